@@ -478,6 +478,19 @@ func checkC05C06C07(h *History, sc *ScanCtx, g *GroupCtx, r *Report) {
 	// --- exact remainder relative to the real desired capacity (C07) and sufficiency (C05)
 	if need, ok := expectedUp(g); ok && upReached(g) {
 		untaints := len(g.Untaints)
+		// (a node the view shows tainted but that is in fact untainted already is in service as well: escalator
+		// counts it, rightly, as untainted without writing anything)
+		for _, n := range g.View.TaintedN {
+			if o := g.NodeObs[n.Name]; o != nil && o.AlreadyUntainted && !o.GetErr && !o.PutErr && !set(g.Untaints)[n.Name] {
+				untaints++
+			}
+		}
+		failedUntaints := 0
+		for _, n := range g.View.TaintedN {
+			if g.FailedAttempt(n.Name) {
+				failedUntaints++
+			}
+		}
 		var reqReal, reqCache int64
 		var atBound bool
 		tried := false
@@ -527,7 +540,7 @@ func checkC05C06C07(h *History, sc *ScanCtx, g *GroupCtx, r *Report) {
 			}
 		}
 		// C07: first untaint up to N, then exactly the remainder on top of the current desired size
-		wantUntaints := minI(need.lo, T)
+		wantUntaints := minI(need.lo, T-failedUntaints)
 		if untaints < wantUntaints {
 			r.Violate("C07", "too-few-untaints", "group %s: needed >=%d nodes with %d tainted available but untainted only %d", g.Cfg.Name, need.lo, T, untaints)
 		}
@@ -543,7 +556,7 @@ func checkC05C06C07(h *History, sc *ScanCtx, g *GroupCtx, r *Report) {
 			r.Violate("C07", key, "group %s: requested +%d on top of the real desired capacity (+%d relative to the cached one) after untainting %d: brings %d nodes, at most %d needed (%d instances were terminated earlier in this scan)",
 				g.Cfg.Name, reqReal, reqCache, untaints, broughtReal, need.hi, k)
 		}
-		if tried && untaints < T {
+		if tried && untaints+failedUntaints < T {
 			r.Violate("C07", "cloud-before-pool-exhausted", "group %s: capacity requested with %d of %d tainted nodes still tainted", g.Cfg.Name, T-untaints, T)
 		}
 	}
@@ -1090,6 +1103,14 @@ func checkC15(h *History, sc *ScanCtx, g *GroupCtx, r *Report) {
 			r.Covered(P, "update-of-missing-node")
 			continue
 		}
+		if !e.Applied {
+			// refused by the API server (a genuine resourceVersion conflict or an injected failure): nothing was
+			// written, so nothing can have been lost
+			if strings.Contains(e.Err, "modified") && !e.Injected {
+				r.Covered(P, "update-rejected-by-genuine-conflict")
+			}
+			continue
+		}
 		a, b := normalizeForDiff(e.Before), normalizeForDiff(e.Sent)
 		ab, _ := a.Marshal()
 		bb, _ := b.Marshal()
@@ -1317,6 +1338,16 @@ func checkC20(h *History, sc *ScanCtx, r *Report) {
 		key := "panic:" + panicClass(rec)
 		if rec.Fatal {
 			key = "fatal-exit:" + panicClass(rec)
+			if strings.Contains(key, "terminateOrphanedInstances") {
+				// the documented escape hatch fires on the third consecutive failed fleet scale-up of one group
+				streak := 0
+				for _, g := range sc.Groups {
+					if len(g.Fleets) > 0 && g.FleetFailStreak > streak {
+						streak = g.FleetFailStreak
+					}
+				}
+				key += fmt.Sprintf(":consecutive-failures-of-the-group=%d", streak)
+			}
 		}
 		r.Violate(P, key, "scan %d: %v\n%s", rec.No, rec.Panic, rec.Stack)
 	}
